@@ -124,7 +124,9 @@ prop("C02", [
     dict(engine="kani", sets=["net_subnet"]),
     dict(POOL_B, checks=["allocate_address/C02"]),
     # the glue the range slices assume: a policy's address set is the union of all its address keys, in any order, minus sub-policy reservations
-    dict(engine="sql", module="dhcpcfg", domain="every non-empty subset of {apply-address, apply-range, apply-subnet} in every key order, with and without a reserving sub-policy (30 fragments); 3 range end cases"),
+    dict(engine="sql", module="dhcpcfg", checks=["policy-addresses/"], domain="every non-empty subset of {apply-address, apply-range, apply-subnet} in every key order, with and without a reserving sub-policy (30 fragments); 3 range end cases"),
+    # which sibling's address set is selected, body-independent (also judges a rewritten apply_policies)
+    dict(engine="sql", module="policy", checks=["policy/first-matching-sibling-wins"], domain="1..=3 sibling policies, flat and under a match-all parent, every subset of them matching (28 cases)"),
 ], explanation="pool membership before every grant (allocate_address ensures; handle_discover/handle_request: yiaddr lies in the set the policies selected), which policy's set is selected (first applicable sibling: unit policy), apply-subnet expansion == every host address, default addresses pool == hosts minus server minus used",
     assumptions=["apply-range: the RangeInclusive for-loop is verified in the loop form of rule R21 (this vstd has no ghost iterator for RangeInclusive)", "YAML text -> values (yaml-rust) not under contract",
                  "the address arithmetic base == network() and get_or_insert_with glue around the slices is assumed (slice preconditions)"])
@@ -248,7 +250,9 @@ prop("C11", [
     dict(engine="verus", unit="dhcphandlers", fns=["handle_discover", "handle_request"]),
     # the two gate clauses on the real apply_policies, body-independent (also judges a rewritten apply_policy); covers the
     # parameter-request-list extraction that the Verus unit replaces by a stub
-    dict(engine="sql", module="policy", domain="one matching policy carrying one option out of 10 codes (incl. 5 pairs 128 apart) x every parameter request list of 0..=2 of those codes (1010 cases); netmask/broadcast defaults (101 cases)"),
+    dict(engine="sql", module="policy", domain="one matching policy carrying one option out of 10 codes (incl. 5 pairs 128 apart) x every parameter request list of 0..=2 of those codes (1010 cases); netmask/broadcast defaults (101 cases); first matching sibling: 1..=3 siblings, flat and nested, every subset matching (28 cases)"),
+    # "null = explicitly unset / do not send" as the loader produces it, for every named option of every type (real Config::parse_policy)
+    dict(engine="sql", module="dhcpcfg", checks=["policy-options/"], domain="apply-<name>: null and match-<name>: null for each of the 74 named options (all option types)"),
 ], explanation="policy selection and override: the response state after apply_policies equals the recursive model taken from the property statement (first applicable sibling only, condition-less policy applies iff a sub-policy does, own options then children then subnet defaults, null = do-not-send, only options in the parameter request list); to_options sends exactly the entries carrying a value",
     assumptions=["parameter-request-list extraction (iterator chain .unwrap_or_default().iter().copied().map(DhcpOption::from).collect()) replaced by a stub with the obvious contract",
                  "generic get_option::<Vec<u8>> glue assumed (parse_into proved in unit dhcpgetters)",
